@@ -690,7 +690,9 @@ impl Walrus {
         let mut planned_bytes: usize = 0;
         let chain_len_at_plan = chain.len();
 
-        while cur_idx < chain.len() && planned_bytes < max_bytes {
+        // A zero budget still owes the caller one entry ("always allow at least one entry").
+        let plan_budget = max_bytes.max(1);
+        while cur_idx < chain.len() && planned_bytes < plan_budget {
             let block = chain[cur_idx].clone();
             if cur_off >= block.used {
                 if info_guard.is_some() {
@@ -704,7 +706,7 @@ impl Walrus {
                 continue;
             }
 
-            let mut want = (max_bytes - planned_bytes) as u64;
+            let mut want = (plan_budget - planned_bytes) as u64;
 
             if planned_bytes == 0 {
                 // This is the start of planning a new batch read
